@@ -7,19 +7,20 @@ import DuneVerif.Proofs.C10Cmp
 namespace DV.C10
 open DV.C10.Gen
 
-/-- The subtraction loop with more fuel than `val a` leaves through its `else` branch with quotient (added to
+/-- The subtraction loop with more fuel than the quotient leaves through its `else` branch with quotient (added to
     the counter `r`, modulo W) and remainder.  The divisor must be non-zero: this is the guard the code needs. -/
 theorem divLoop_spec {n : Nat} {x : List Nat} (hx : Wf n x) (hpos : 0 < val x) :
-    ∀ (fuel : Nat) (a r : List Nat), Wf n a → Wf n r → val a < fuel →
+    ∀ (fuel : Nat) (a r : List Nat), Wf n a → Wf n r → val a / val x < fuel →
       Wf n (divLoop fuel a x r).1 ∧ Wf n (divLoop fuel a x r).2 ∧
       val (divLoop fuel a x r).1 = (val r + val a / val x) % W n ∧
       val (divLoop fuel a x r).2 = val a % val x
-  | 0, _, _, _, _, h => by omega
+  | 0, _, _, _, _, h => absurd h (Nat.not_lt_zero _)
   | fuel + 1, a, r, ha, hr, h => by
     simp only [divLoop, ge_val' ha hx]
     by_cases hle : val x ≤ val a
     · simp only [hle, decide_true, if_true]
       have hs := sub_val_of_le ha hx hle
+      have hq := Nat.div_eq_sub_div hpos hle
       obtain ⟨h1, h2, h3, h4⟩ := divLoop_spec hx hpos fuel (sub a x) (incr r) (sub_wf ha hx) (incr_wf hr)
         (by rw [hs]; omega)
       refine ⟨h1, h2, ?_, ?_⟩
@@ -42,7 +43,7 @@ theorem div_spec {n : Nat} {a x : List Nat} (ha : Wf n a) (hx : Wf n x) (h : val
     ∃ q, div a x = .ok q ∧ Wf n q ∧ val q = val a / val x := by
   have hpos : 0 < val x := Nat.pos_of_ne_zero h
   have hz : Wf n (zeros a.length) := by rw [ha.1]; exact wf_zeros n
-  obtain ⟨h1, _, h3, _⟩ := divLoop_spec hx hpos (val a + 1) a (zeros a.length) ha hz (by omega)
+  obtain ⟨h1, _, h3, _⟩ := divLoop_spec hx hpos (val a / val x + 1) a (zeros a.length) ha hz (by omega)
   refine ⟨_, by simp [div, eq_zeros hx, h], h1, ?_⟩
   rw [h3, val_zeros, Nat.zero_add]
   exact Nat.mod_eq_of_lt (Nat.lt_of_le_of_lt (Nat.div_le_self _ _) (val_lt ha))
@@ -51,7 +52,7 @@ theorem mod_spec {n : Nat} {a x : List Nat} (ha : Wf n a) (hx : Wf n x) (h : val
     ∃ r, mod a x = .ok r ∧ Wf n r ∧ val r = val a % val x := by
   have hpos : 0 < val x := Nat.pos_of_ne_zero h
   have hz : Wf n (zeros a.length) := by rw [ha.1]; exact wf_zeros n
-  obtain ⟨_, h2, _, h4⟩ := divLoop_spec hx hpos (val a + 1) a (zeros a.length) ha hz (by omega)
+  obtain ⟨_, h2, _, h4⟩ := divLoop_spec hx hpos (val a / val x + 1) a (zeros a.length) ha hz (by omega)
   exact ⟨_, by simp [mod, eq_zeros hx, h], h2, h4⟩
 
 theorem div_zero' {n : Nat} {a x : List Nat} (hx : Wf n x) (h : val x = 0) : div a x = .mathError := by
@@ -62,7 +63,7 @@ theorem mod_zero' {n : Nat} {a x : List Nat} (hx : Wf n x) (h : val x = 0) : mod
 
 /-- more fuel changes nothing: the loop has already left through `!(a >= x)` -/
 theorem divLoop_fuel {n : Nat} {a x r : List Nat} (ha : Wf n a) (hx : Wf n x) (hr : Wf n r) (hpos : 0 < val x)
-    {f1 f2 : Nat} (h1 : val a < f1) (h2 : val a < f2) : divLoop f1 a x r = divLoop f2 a x r := by
+    {f1 f2 : Nat} (h1 : val a / val x < f1) (h2 : val a / val x < f2) : divLoop f1 a x r = divLoop f2 a x r := by
   obtain ⟨a1, a2, a3, a4⟩ := divLoop_spec hx hpos f1 a r ha hr h1
   obtain ⟨b1, b2, b3, b4⟩ := divLoop_spec hx hpos f2 a r ha hr h2
   exact Prod.ext (val_inj a1 b1 (by rw [a3, b3])) (val_inj a2 b2 (by rw [a4, b4]))
